@@ -6,5 +6,5 @@ for d in seeded/${1:-C}*/; do
   [ -f $d/patch.diff ] || continue
   t0=$(date +%s)
   out=$(tools/mutant_test.sh $P $d/patch.diff 2>&1 | tail -1)
-  echo -e "$(date +%H:%M)\t$P\t$n\t$out\t$(( $(date +%s) - t0 ))s" >> seeded/RESULTS.tsv
+  echo -e "$(date +%H:%M)\t$P\t$n\t$out\t$(( $(date +%s) - t0 ))s" >> ${RESULTS:-seeded/RESULTS.tsv}
 done
